@@ -147,6 +147,11 @@ def audit (tbl : EnvTable) (toks : List TagName) : Except PyErr Report :=
 
 def Report.clean : Report := {}
 
+/-- `inner_tags = inner_tags or DEFAULT_INNER_TAG_MAP` (the `inner_tags=` argument of
+`analyze_tags_from_string`; an empty mapping is falsy and falls back to the default) -/
+def withInner (tbl : EnvTable) (m : List (TagName × List TagName)) : EnvTable :=
+  if m.isEmpty then tbl else { tbl with inner := m }
+
 /-! ## The lexer, at the level of tag names
 
 Source = one `{% name args %}` per element, with literal text in between.  `raw … endraw` and
